@@ -41,7 +41,7 @@ var commentReaders = map[string]string{
 }
 
 func runC09(c *core.Ctx) {
-	c.Explanation = "Who-may-decide-on-comments, decided on SSA: (cmt.decide) in parser, linter, interpreter and tester no value produced by a comment-bearing ast renderer (String() methods of node kinds that print Leading/Trailing/Infix comments, computed as a fixpoint, and every dynamic String() on an ast interface) flows — through conversions, concatenation, strings.* helpers and inter-procedurally through string parameters — into a decision: ==/!= comparison, map key, conversion to a named string type such as interpreter.State, slices.Contains / strings.HasPrefix-style predicates; flows into messages are fine; (cmt.readers) comment slots (Meta.Leading/Trailing/Infix, Comment.Value, Parenthesis*Comments) are read outside ast/parser/formatter/tester-syntax/codec only by the enumerated annotation parsers (one reason each), so ordinary comment text can reach no other code; (cmt.layout) layout fields (PreviousEmptyLines, Nest, EndLine, EndPosition, PrefixedLineFeed) are never part of a branch condition in linter or interpreter. Necessary for inertness of comments for all programs and all decorations at once."
+	c.Explanation = "Who-may-decide-on-comments, decided on SSA: (cmt.decide) in parser, linter, interpreter and tester no value produced by a comment-bearing ast renderer (String() methods of node kinds that print Leading/Trailing/Infix comments, computed as a fixpoint, and every dynamic String() on an ast interface) flows — through conversions, concatenation, strings.* helpers and inter-procedurally through string parameters — into a decision: ==/!= comparison, map key, conversion to a named string type such as interpreter.State, slices.Contains / strings.HasPrefix-style predicates; flows into messages are fine; (cmt.readers) comment slots (Meta.Leading/Trailing/Infix, Comment.Value, Parenthesis*Comments) are read outside ast/parser/formatter/tester-syntax/codec only by the enumerated annotation parsers (one reason each), so ordinary comment text can reach no other code; (cmt.layout) layout fields (PreviousEmptyLines, Nest, EndLine, EndPosition, PrefixedLineFeed) are never part of a branch condition in linter or interpreter. (cmt.scan) the scanners of block and line comments consume exactly one character on every path around their loop, so no character is skipped as the possible start of the terminator (a comment ending in `**/` ends there and does not swallow the code behind it). Necessary for inertness of comments for all programs and all decorations at once."
 	c.NotCovered = []string{"the lexer's treatment of whitespace inside tokens (juxtaposition across lines)", "that each annotation parser filters on its marker before using the text (reviewed by hand, listed)", "Token.Line/Position in decisions (locations are allowed to differ)"}
 	prog := c.Prog
 	u := newAstUniverse(prog)
@@ -49,6 +49,8 @@ func runC09(c *core.Ctx) {
 		c.MissingAnchor("cmt.decide", "package ast")
 		return
 	}
+	// ---- where a comment ends: the comment scanners examine every character as the possible start of the terminator
+	checkScanStep(c, "cmt.scan", func(fn *ssa.Function) bool { return fn.Name() == "readMultiComment" || fn.Name() == "readEOL" }, 2)
 	// ---- comment-bearing renderers
 	cb := map[*ssa.Function]bool{}
 	strFns := map[string]*ssa.Function{}
